@@ -21,6 +21,17 @@ def cases(draw):
     lnames = [L['name'] for L in spec['layers']]
     mnames = [m['name'] for m in spec['modules']]
     tnames = sorted({t['n'] for _, t in gen.iter_tests(spec)})
+    # some modules live in (nested) packages; some of the packages are searched a second time through
+    # --package-path DIR dotted.name, i.e. the same files are reached through overlapping search roots
+    for m in spec['modules']:
+        pkg = draw(st.sampled_from([None, None, None, 'pk', 'pk', 'pk.sub', 'qk']))
+        if pkg:
+            m['pkg'] = pkg
+    used = sorted({m['pkg'] for m in spec['modules'] if m.get('pkg')})
+    if used and draw(st.booleans()):
+        spec['package_paths'] = draw(st.lists(st.sampled_from(used + ['pk']), min_size=1, max_size=2, unique=True))
+        if 'pk' in spec['package_paths'] and 'pk' not in used and 'pk.sub' not in used:
+            spec['package_paths'].remove('pk')
 
     def pats(words, extra):
         base = st.one_of(st.sampled_from(list(words) + list(extra)), st.sampled_from(list(words)).map(lambda s: s + '$'))
@@ -42,15 +53,25 @@ def cases(draw):
     uf = draw(st.sampled_from(['', '', '', 'u', 'f', 'uf']))
     opts['unit'] = 'u' in uf
     opts['non_unit'] = 'f' in uf
+    if used and draw(st.integers(0, 4)) == 0:
+        opts['package'] = [draw(st.sampled_from(used))]
     opts['repeat'] = draw(st.sampled_from([1, 1, 2]))
     opts['shuffle'] = draw(st.one_of(st.none(), st.integers(0, 9999)))
     mode = draw(st.sampled_from(['j2', 'j3', 'j1-resume', 'resume']))
     return {'spec': spec, 'opts': opts, 'mode': mode, 'verbose': draw(st.integers(0, 2))}
 
 
+def pkg_args(spec, opts):
+    args = []
+    for pkg in opts.get('package') or ():
+        args += ['-s', '.'.join(spec['mp'] + part for part in pkg.split('.'))]
+    return args
+
+
 def expected(spec, opts):
     at = opts.get('at_level')
     return model.select(spec, test_pats=opts.get('test') or None, module_pats=opts.get('module') or None,
+                        packages=opts.get('package') or None,
                         layer_pats=opts.get('layer') or None, at_level=1 if at is None else at,
                         all_levels=bool(opts.get('all')), only_level=opts.get('only_level'),
                         unit=bool(opts.get('unit')), non_unit=bool(opts.get('non_unit')))
@@ -123,7 +144,7 @@ class Modes(Part):
         lopts = dict(opts, list=True, verbose=case['verbose'])
         if case['mode'].startswith('j') and case.get('list_j', True):
             lopts['j'] = int(case['mode'][1])
-        run_l = drive.run_inproc(spec, common.args_of(lopts), disk=True)
+        run_l = drive.run_inproc(spec, common.args_of(lopts) + pkg_args(spec, opts), disk=True)
         viol += [(s + '/list', m) for s, m in common.run_escaped(run_l, 'C03')]
         listed = None
         if run_l.exc is None:
@@ -143,7 +164,7 @@ class Modes(Part):
                              % ({k.replace(spec['mp'], ''): len(v) for k, v in listed.items()},
                                 {k.replace(spec['mp'], ''): len(v) for k, v in exp_l.items()})))
         # 2. sequential
-        run_s = drive.run_inproc(spec, common.args_of(dict(opts, verbose=case['verbose'])), disk=True)
+        run_s = drive.run_inproc(spec, common.args_of(dict(opts, verbose=case['verbose'])) + pkg_args(spec, opts), disk=True)
         got_s, per_pid_s = check_run('sequential', spec, w, run_s, want, repeat, viol)
         if got_s is not None and listed is not None and run_l.exc is None:
             # listed order per layer == executed order per layer (first iteration)
@@ -174,7 +195,7 @@ class Modes(Part):
                     L.setdefault('faults', {})['tearDown'] = 'NIE'
                     break
         want2 = expected(spec2, opts)
-        run_p = drive.run_inproc(spec2, common.args_of(o2), disk=True)
+        run_p = drive.run_inproc(spec2, common.args_of(o2) + pkg_args(spec2, opts), disk=True)
         got_p, per_pid_p = check_run(mode, spec2, w2, run_p, want2, repeat, viol)
         nchild = len(traceana.by_pid(run_p.trace)) - 1
         if got_s is not None and got_p is not None:
@@ -183,9 +204,27 @@ class Modes(Part):
             if a != b:
                 viol.append(('C03/modes-disagree/' + mode, 'sequential ran %d tests, %s ran %d; difference %s'
                              % (sum(a.values()), mode, sum(b.values()), sorted(((a - b) + (b - a)).items())[:5])))
+        if got_p is not None and listed is not None and run_l.exc is None:
+            # the listing is "precisely the order a run executes" in every mode: inside each process of the -j /
+            # resumed run, each layer's tests (first iteration) run in the listed order
+            norm_listed = {ln.replace(spec['mp'], ''): [x.replace(spec['mp'], '') for x in names]
+                           for ln, names in listed.items()}
+            for pid, seq in per_pid_p.items():
+                by_layer = {}
+                for ln, sname in seq:
+                    by_layer.setdefault(ln.replace(spec2['mp'], ''), []).append(sname.replace(spec2['mp'], ''))
+                for ln, names in by_layer.items():
+                    first = names[:len(names) // repeat] if repeat > 1 else names
+                    if norm_listed.get(ln) != first and sorted(norm_listed.get(ln) or []) == sorted(first):
+                        viol.append(('C03/list-order-differs-from-run/' + mode, 'layer %s: listed %s, executed %s in the '
+                                     '%s run' % (ln, norm_listed.get(ln), first, mode)))
         total = sum(1 for _ in gen.iter_tests(base))
         nsel = sum(len(v) for v in want.values())
         labels = [mode]
+        if base.get('package_paths'):
+            labels.append('package-path')
+        if opts.get('package'):
+            labels.append('-s')
         if nchild > 0:
             labels.append('children')
         if 0 < nsel < total:
